@@ -87,7 +87,7 @@ class Sink(threading.Thread):
 
 
 class Collector:
-    def __init__(self, binary, workdir, extra_args=(), env=None, sink=None, config_text="", enable=("ipfix", "netflow9", "netflow5", "sflow"), minimal=False):
+    def __init__(self, binary, workdir, extra_args=(), env=None, sink=None, config_text="", enable=("ipfix", "netflow9", "netflow5", "sflow"), minimal=False, config_as="-config FILE"):
         self.dir = workdir
         os.makedirs(os.path.join(workdir, "etc"), exist_ok=True)
         self.ports = dict(zip(("ipfix", "netflow9", "netflow5", "sflow"), free_ports(4)))
@@ -107,7 +107,9 @@ class Collector:
         if minimal:
             # configuration conformance runs: only what is needed to run unprivileged side by side; the
             # settings under test come from config_text / env / extra_args
-            args = [binary, "-config", os.path.join(workdir, "etc", "vflow.conf"), "-pid-file", os.path.join(workdir, "vflow.pid"),
+            cfg = os.path.join(workdir, "etc", "vflow.conf")
+            cfgargs = {"-config FILE": ["-config", cfg], "-config=FILE": ["-config=" + cfg], "--config FILE": ["--config", cfg], "--config=FILE": ["--config=" + cfg]}[config_as]
+            args = [binary] + cfgargs + ["-pid-file", os.path.join(workdir, "vflow.pid"),
                     "-log-file", os.path.join(workdir, "vflow.log"), "-stats-format", "restful", "-stats-http-addr", "127.0.0.1"]
             if not any(a.startswith("-stats-http-port") for a in extra_args) and "stats-http-port" not in config_text and "VFLOW_STATS_HTTP_PORT" not in (env or {}):
                 args += ["-stats-http-port", str(self.http)]
